@@ -86,7 +86,7 @@ def main():
             c.violation('init_%s.json' % m, {'kind': 'InitialiseStates-failed', 'model': m, 'params': ps})
             continue
         for regime in REGIMES:
-            T = rng.choice(lengths)
+            T = draw_length(rng, lengths)
             zero_pet = (m == 'GR4J' and ps[1] == 0.0 and rng.random() < 0.6)
             rain, pet = forcing(rng, regime, T, zero_pet=zero_pet)
             cases.append({'model': m, 'ps': ps, 'st0': st0, 'rain': rain, 'pet': pet, 'regime': regime, 'kind': 'full'})
@@ -94,6 +94,13 @@ def main():
                 for cut in sorted({rng.randint(1, T - 1), max(1, T // 3)}):
                     cases.append({'model': m, 'ps': ps, 'st0': st0, 'rain': rain[:cut], 'pet': pet[:cut], 'regime': regime,
                                   'kind': 'prefix', 'rest': (rain[cut:], pet[cut:])})
+
+        # one run per parameter vector from a state inside the store invariant but away from the model's own zeros
+        # (stores at capacity, above / at field capacity, part full)
+        if m != 'RunoffCoefficient':
+            regime = rng.choice(REGIMES)
+            rain, pet = forcing(rng, regime, draw_length(rng, [7, 40, 120]))
+            cases.append({'model': m, 'ps': ps, 'st0': warm_states(rng, m, ps, st0), 'rain': rain, 'pet': pet, 'regime': regime, 'kind': 'warm'})
 
     # ---- corpus: minimised past failures (witnesses of the known findings), always replayed
     for f in sorted(glob.glob(os.path.join(CORPUS, '*.json'))):
@@ -220,8 +227,8 @@ def main():
     c.cov['rule'] = ('parameter vectors drawn from the ranges of Properties/C10.v (interior, log-uniform for capacities, and end points with '
                      'probability 0.3; GR4J x4 additionally on both sides of every integer and half-integer; x2 = 0 / x2 <= 0 classes; Sacramento unit-hydrograph proportions from nine classes: defaults, random normalised, stored as float32 or with 7/6/5 decimals, sum 1 +- 1e-9..1e-5, grossly un-normalised, single ordinate; a quarter of the Sacramento vectors with side = ssout = 0, where the budget is an identity up to the unit-hydrograph buffer), '
                      'each run under the five forcing regimes (dry, wet, intermittent with long dry spells, single pulse, extreme storm up to '
-                     '1500 mm/day) for T in {0,1,2,7,40,400}; initial states = the model\'s own InitialiseStates (INIT command), '
-                     'plus prefix runs (stores observed in mid-run), hot starts from those model-produced states, the corpus witnesses of the three fixed Sacramento defects (regressions) and a small malformed stream (short / over-long state vectors, model-vs-code only); every case run through '
+                     '1500 mm/day) for T in {0,1,2,7,40,400} or, with probability 0.2, a block-boundary length (63..65, 127..129, 255..257, 511..513, 768, 1024); forcing with joint degenerate steps (rain = PET = 0 on the same step, PET = 0 on wet steps, bit-identical plateaus) written over 60 % of the series; initial states = the model\'s own InitialiseStates (INIT command), '
+                     'plus one warm start per vector from a state inside the store invariant (stores at capacity / above, at, below field capacity), prefix runs (stores observed in mid-run), hot starts from those model-produced states, the corpus witnesses of the three fixed Sacramento defects (regressions) and a small malformed stream (short / over-long state vectors, model-vs-code only); every case run through '
                      'sim.Catalog and through the extracted Coq kernel (GR4J: rtol 1e-9, atol 1e-12*scale; Sacramento, Simhyd, Surm: rtol 1e-12, atol 1e-15*scale, scale = 1+largest parameter/initial store/daily rain; RunoffCoefficient bit-exact) and judged by the '
                      'C10 oracle with tolerance 1e-9*(1+sum rain), the Sacramento whole-run budget incl. the final land stores with 1e-12*(1+sum rain+initial stores); non-trivial = T>0 and some rain; distinct = distinct (model, parameters, initial states, series)')
     c.finish(extra_cov={'cases_per_model': nmodel, 'cases_per_regime': nreg, 'parameter_vectors': len(vecs), 'malformed_cases': len(odd), 'malformed_panics_impl': odd_panics, 'known_finding_cases': nknown, 'sacramento_theorem_coverage': sacstat, 'sacramento_uh_sum_classes': uhcls, 'sacramento_closed_budget_vectors': closed[0], 'ill_conditioned_cases_accepted': illcond[0], 'ill_conditioned_max_amplification': illcond[1], 'ill_conditioned_perturbed_runs': illcond[2], 'exhaustive': False},
